@@ -27,7 +27,7 @@ def run(tier):
     t0 = time.time()
     known = load_known(PID)
     jobs = [(run_b_job, ({'property': PID, 'scenario': S, 'params': p, 'known': known},
-                         2400 if tier == 'thorough' else 1500)) for p in configs(tier)]
+                         1800 if tier == 'thorough' else 1500)) for p in configs(tier)]
     T = 600 if tier == 'thorough' else 200
     for f in conditions_of('harness.C09_batch'):
         jobs.append((run_condition, ({'module': 'harness.C09_batch', 'func': f, 'timeout': T, 'property': PID},)))
